@@ -14,7 +14,9 @@
   * A WRITER (one update batch of one table) announces itself (`waiting`), takes its lock when nobody holds it,
     performs its write (the version becomes its step number), and releases.
   * `Step s s'`: one process does one atomic action.  `act` is the executable transition function,
-    `canStep` the executable test "some action is enabled".
+    `canStep` the executable test "some action is enabled".  `ProgressStep` / `canProgress`: the same for the
+    actions other than reads (a read is always possible while a lock is held and moves nobody forward);
+    `work` counts the actions other than reads that are still to be done.
 -/
 
 namespace Lmd.LockProto
@@ -144,9 +146,23 @@ inductive Reach (s0 : State) : State → Prop
 
 def enabled (s : State) (a : Action) : Bool := (act s a).isSome
 
+/-- reading does not move a process forward in its life cycle (a query may read as often as it likes); every
+    other action does -/
+def Action.isProgress : Action → Bool
+  | .rRead _ _ => false
+  | _ => true
+
+/-- one process does one atomic action other than a read: it takes or releases a lock, announces itself or
+    writes -/
+def ProgressStep (s s' : State) : Prop := ∃ a, a.isProgress = true ∧ act s a = some s'
+
+/-- the actions other than reads process `p` could try -/
+def progressCandidates (p : Nat) : List Action :=
+  [.rAcquire p, .rRelease p, .wAnnounce p, .wAcquire p, .wWrite p, .wRelease p]
+
 /-- the actions process `p` could try -/
 def candidates (s : State) (p : Nat) : List Action :=
-  [.rAcquire p, .rRelease p, .wAnnounce p, .wAcquire p, .wWrite p, .wRelease p] ++
+  progressCandidates p ++
   (match s.procs[p]? with
    | some (.reader r) => r.held.map (.rRead p)
    | _ => [])
@@ -154,6 +170,24 @@ def candidates (s : State) (p : Nat) : List Action :=
 /-- some process can do some action -/
 def canStep (s : State) : Bool :=
   (List.range s.procs.length).any fun p => (candidates s p).any (enabled s)
+
+/-- some process can do some action other than a read -/
+def canProgress (s : State) : Bool :=
+  (List.range s.procs.length).any fun p => (progressCandidates p).any (enabled s)
+
+/-- the work a process still has to do, counted in actions other than reads -/
+def Proc.work : Proc → Nat
+  | .reader r => if r.done then 0 else r.want.length + 1
+  | .writer w =>
+    match w.phase with
+    | .idle => 4
+    | .waiting => 3
+    | .holding => 2
+    | .written => 1
+    | .done => 0
+
+/-- the work all processes together still have to do -/
+def work (s : State) : Nat := (s.procs.map Proc.work).sum
 
 /-- run a list of actions -/
 def exec (s : State) : List Action → Option State
@@ -175,6 +209,12 @@ structure Initial (s : State) : Prop where
 /-- every query takes its locks in strictly increasing order (what `affectedTables` guarantees) -/
 def SortedWants (s : State) : Prop :=
   ∀ x ∈ s.procs, ∀ r, x = .reader r → r.want.Pairwise (· < ·)
+
+/-- executable form of `SortedWants` -/
+def sortedWantsB (s : State) : Bool :=
+  s.procs.all fun
+    | .reader r => decide (r.want.Pairwise (· < ·))
+    | .writer _ => true
 
 /-- all processes have finished -/
 def allFinished (s : State) : Bool := s.procs.all Proc.finished
